@@ -104,9 +104,9 @@ def op_refine(g: nx.Graph):
         rounds = [0]
         orig = C.partition_molecule_by_attribute
 
-        def counting(m, a):
+        def counting(*a, **k):
             rounds[0] += 1
-            return orig(m, a)
+            return orig(*a, **k)
         C.partition_molecule_by_attribute = counting
         try:
             r = list(C.refine_partitions(g))[-1]
@@ -123,30 +123,39 @@ def op_canon(g: nx.Graph):
     before = P.show_graph(g)
 
     def run():
+        # instrumentation of two internals (round count, refined graph); if an internal has gone (a refactoring),
+        # the operation cannot be compared with the model, but the PUBLIC function is still called so that the
+        # probes, which use only public results, are not affected
         rounds = [0]
-        orig = C.partition_molecule_by_attribute
         refined = {}
+        orig = getattr(C, "partition_molecule_by_attribute", None)
+        orig_assign = getattr(C, "assign_canonical_labels", None)
 
-        def counting(m, a):
+        def counting(*a, **k):
             rounds[0] += 1
-            return orig(m, a)
-        orig_assign = C.assign_canonical_labels
+            return orig(*a, **k)
 
-        def assign(m):
+        def assign(m, *a, **k):
             refined["g"] = m
-            return orig_assign(m)
-        C.partition_molecule_by_attribute = counting
-        C.assign_canonical_labels = assign
+            return orig_assign(m, *a, **k)
+        if orig is not None:
+            C.partition_molecule_by_attribute = counting
+        if orig_assign is not None:
+            C.assign_canonical_labels = assign
         n0 = len(ORACLE_LOG)
         try:
             c = C.canonicalize_molecule(g)
         finally:
-            C.partition_molecule_by_attribute = orig
-            C.assign_canonical_labels = orig_assign
+            if orig is not None:
+                C.partition_molecule_by_attribute = orig
+            if orig_assign is not None:
+                C.assign_canonical_labels = orig_assign
             info["oracle"] = ORACLE_LOG[n0:]
         info["canon"] = c
         info["refined"] = refined.get("g")
         info["rounds"] = rounds[0] - 1
+        if orig is None or "g" not in refined:
+            return "ERR internal-not-observable"
         return P.fields(f"rounds={rounds[0] - 1}", "parts=" + parts_of(refined["g"]), P.show_graph(c))
     real = guarded(run)
     info["arg_unchanged"] = (P.show_graph(g) == before)
